@@ -35,7 +35,10 @@ RULE = ("one case = one generated model (1-4 parameters, 2-6 variables over the 
         "matrices, Real / Integer / Boolean; 30 % of the states/algebraics declared in a component or base class with "
         "attribute modifications) with up to six declared attributes per variable, observed at 2-3 exact "
         "parameter vectors (one of them often 0); non-trivial = at least one attribute is an expression of a parameter or "
-        "an array, or needs a type coercion; distinct = distinct model text + parameter vectors")
+        "an array, or needs a type coercion; distinct = distinct model text + parameter vectors; stream `expand`: "
+        "2-4 further arrays of shape [n], [n,1], [1,n], [n,m] whose attributes are non-uniform constant array expressions "
+        "(diagonal(..)*fill(..)*diagonal(..), transpose, negation, c*linspace: a DM in the model); these and 15 % of the "
+        "main cases are observed a second time after simplify({expand_vectors: True}), element by element")
 TRUSTED = ["CasADi: MX construction, Function evaluation at exactly representable points, jacobian/sparsify/mtimes used by the "
            "affine rebuild (the model proves the recipe J(0)*p + f(0) exact for affine f, not CasADi's differentiation)",
            "the parser/flattener deliver the attribute expressions as written (C03, C07, C08)"]
@@ -378,7 +381,30 @@ def gen_dmconst(rng, typ, dims):
     return d
 
 
+def each_dm_on_array(case):
+    """open finding C13-F3: an ARRAY variable with a scalar constant expression (`each max = 2*3`, `each nominal =
+    0.5 * 4.0`, `each fixed = not true`: a 1x1 DM in the model) -> _expand_vectors indexes the 1x1 DM with the element index"""
+    for v in case["vars"]:
+        if v["dims"]:
+            for d in v["attrs"].values():
+                if d["k"] == "notlit" or (d["k"] == "expr" and not _has_par(d["e"])):
+                    return True
+    return False
+
+
 def gen_case(rng, stream="main"):
+    if stream == "expand-known":
+        case = gen_case(rng, "expand")
+        typ = rng.choice(["Integer", "Boolean", "Real"])
+        a = rng.choice(["start", "fixed"] if typ == "Boolean" else ["min", "max", "start"] if typ == "Real" else ["min", "max", "start", "fixed"])
+        if a != "fixed" and typ != "Boolean" and (typ == "Real" or rng.random() < 0.6):
+            d = {"k": "expr", "e": {"op": "mul", "a": {"op": "num", "v": xj(rng.randint(-4, 4)), "int": typ == "Integer"},
+                                    "b": {"op": "num", "v": xj(rng.randint(1, 4)), "int": True}}}
+        else:
+            d = {"k": "notlit", "v": rng.random() < 0.5}
+        case["vars"].append({"name": "xk", "kind": "alg", "type": typ, "dims": [rng.choice([2, 3])], "attrs": {a: d}})
+        case["stream"], case["expand"] = stream, True
+        return case
     style = rng.choice(["affine", "rebuild", "rebuild", "bilinear", "cubic", "piecewise", "mixed", "nonaffine", "plain"]) if stream == "main" else "affine"
     STRICT[0] = style in ("rebuild", "bilinear", "cubic", "piecewise")
     PIECE[0] = rng.choice(["abs", "abs", "max", "min"]) if style == "piecewise" else None
@@ -533,7 +559,8 @@ def _gen_case(rng, stream, style):
         pvecs[-1] = [x if jx(x) != 0 else xj(rng.choice([1, -1, 2, 3, Fraction(1, 2)])) for x in pvecs[-1]]
     case = {"stream": stream, "vars": allv, "npar": len(pars), "pvecs": pvecs}
     if stream == "expand" or (stream == "main" and rng.random() < 0.15):
-        case["expand"] = True         # additionally observed after simplify({"expand_vectors": True})
+        if not each_dm_on_array(case):          # (that class: stream "expand-known", finding C13-F3)
+            case["expand"] = True         # additionally observed after simplify({"expand_vectors": True})
     return case
 
 
@@ -775,7 +802,13 @@ def observe(model, pvecs):
             for a in ORDER:
                 val = getattr(v, a)
                 t = a09.tname(val)
-                o["attrs"][a] = {"t": t, "v": [a09.eval_attr(model, val, pv) for pv in pvecs]}
+                try:
+                    vals = [a09.eval_attr(model, val, pv) for pv in pvecs]
+                except RuntimeError as e:
+                    if "are free" not in str(e):
+                        raise
+                    vals = None          # an expression of symbols that are not parameters of the model
+                o["attrs"][a] = {"t": t, "v": vals}
             out["vars"][name] = o
             out["lists"][lst].append(name)
     f = model.variable_metadata_function
@@ -890,6 +923,8 @@ def oracle(case, obs):
     for name in obs["lists"]["der_states"]:
         o = obs["vars"][name]
         for a in ORDER:
+            if o["attrs"][a]["v"] is None:
+                return ("%s of %s cannot be evaluated" % (a, name), show(DEFAULT[a]), o["attrs"][a]["t"])
             if bcast(o["attrs"][a]["v"][0], 1)[0] != DEFAULT[a] or len(o["attrs"][a]["v"][0]) != 1:
                 return ("default %s of %s" % (a, name), show(DEFAULT[a]), [show(x) for x in o["attrs"][a]["v"][0]])
     # the metadata function: rows per scalar element, columns in the order of CASADI_ATTRIBUTES
@@ -956,7 +991,8 @@ def oracle_expanded(case, obs):
                         return ("expand_vectors: undeclared %s of %s is not the default object" % (a, name), want_t, got["t"])
                 if got["v"] is None:
                     return ("expand_vectors: %s of %s cannot be evaluated (%s)" % (a, name, got["t"]), "numbers", got["t"])
-                if got["t"] in ("int", "float", "bool") and a != "fixed" and d is not None:
+                if got["t"] in ("int", "float", "bool") and a != "fixed" and d is not None and d["k"] != "arr":
+                    # (elements of an array literal are stored as written, `{1, 2.0}`: same as without expand_vectors)
                     finite = all(not isinstance(x, str) for vals in got["v"] for x in vals)
                     if v["type"] == "Integer" and finite and got["t"] == "float":
                         return ("expand_vectors: %s of Integer %s is stored as a Python float" % (a, name), "int", got["t"])
@@ -968,6 +1004,8 @@ def oracle_expanded(case, obs):
     for name in obs["lists"]["der_states"]:
         o = obs["vars"][name]
         for a in ORDER:
+            if o["attrs"][a]["v"] is None:
+                return ("expand_vectors: %s of %s cannot be evaluated" % (a, name), show(DEFAULT[a]), o["attrs"][a]["t"])
             if o["attrs"][a]["v"][0] != [DEFAULT[a]]:
                 return ("expand_vectors: default %s of %s" % (a, name), show(DEFAULT[a]), [show(x) for x in o["attrs"][a]["v"][0]])
     for k, pv in enumerate(pvecs):
@@ -1095,7 +1133,7 @@ def run(ctx):
     for c in corpus.load("C13"):
         ctx.count("corpus")
         check_case(ctx, c["case"] if "case" in c else c, drv)
-    plan = [("array-expr", 30 if quick else 300), ("expand", 50 if quick else 500), ("main", 450 if quick else 4000)]
+    plan = [("array-expr", 30 if quick else 300), ("expand", 50 if quick else 500), ("expand-known", 4 if quick else 20), ("main", 450 if quick else 4000)]
     for stream, n in plan:
         for i in range(n):
             if ctx.time_left() < 0:
